@@ -95,6 +95,7 @@ class OnlyPool(object):
 
     def __init__(self, pool, kind, hid):
         self.pool, self.kind, self.hid = pool, kind, hid
+        self.receiver_chosen = False     # once a receiver was drawn through mutable()/own(), arguments are free
 
     def _f(self, kind, lst):
         if kind != self.kind:
@@ -103,13 +104,21 @@ class OnlyPool(object):
         return [(h, x) for h, x in lst if x is o]
 
     def candidates(self, kind):
+        if self.receiver_chosen:
+            return self.pool.candidates(kind)
         return self._f(kind, self.pool.candidates(kind))
 
     def mutable(self, kind, task):
-        return self._f(kind, self.pool.mutable(kind, task))
+        r = self._f(kind, self.pool.mutable(kind, task))
+        if kind == self.kind and r:
+            self.receiver_chosen = True
+        return r
 
     def own(self, kind, task):
-        return self._f(kind, self.pool.own(kind, task))
+        r = self._f(kind, self.pool.own(kind, task))
+        if kind == self.kind and r:
+            self.receiver_chosen = True
+        return r
 
     def minor_info(self, hid):
         return self.pool.minor_info(hid)
